@@ -9,6 +9,11 @@ sys.path.insert(0, here)
 import manifest_data as md  # noqa
 
 root = os.path.dirname(here)
+# every commit made to /repo on top of the pinned snapshot is a "fix:" commit
+import subprocess
+_log = subprocess.run(["git", "-C", "/repo", "log", "--reverse", "--format=%h %s", "41c2242..HEAD"], capture_output=True, text=True).stdout.strip().split("\n")
+assert all(l.split(" ", 1)[1].startswith("fix:") for l in _log if l), _log
+md.SOURCE_COMMITS = [l.split()[0] for l in _log if l]
 checks = []
 na = []
 for pid in ["C%02d" % i for i in range(1, 21)]:
